@@ -335,6 +335,18 @@ fn make(tier: &str, seed: u64) -> Vec<Box<dyn Harness>> {
             v.push(Box::new(Inst { stable, ops: s.clone() }));
         }
     }
+    // re-ordering with interleaving cones needs four nodes and three accepted edges: these histories are always present
+    for s in [
+        vec![Op::AddNode, Op::AddEdge, Op::AddEdge, Op::AddEdge],
+        vec![Op::AddEdge, Op::AddNode, Op::AddEdge, Op::AddEdge],
+        vec![Op::AddNode, Op::AddEdge, Op::AddEdge, Op::UpdateEdge],
+        vec![Op::AddNode, Op::AddEdge, Op::AddEdge, Op::BuildUpdate],
+        vec![Op::AddNode, Op::AddEdge, Op::BuildEdge, Op::AddEdge],
+    ] {
+        for stable in [false, true] {
+            v.push(Box::new(Inst { stable, ops: s.clone() }));
+        }
+    }
     for s in rotate_subset(four, seed, if thorough { 160 } else { 16 }) {
         for stable in [false, true] {
             v.push(Box::new(Inst { stable, ops: s.clone() }));
